@@ -124,6 +124,7 @@ type fakeServer struct {
 	rv      []byte
 	maxSize int
 	rcounts []string
+	iounit  uint32 // what Rlopen recommends (a hint: the negotiated payload size stays the limit)
 	done    chan struct{}
 }
 
@@ -175,7 +176,7 @@ func (s *fakeServer) run() {
 		case 110: // Twalk (clone) -> Rwalk with 0 qids
 			rep = rawFrame(111, tag, le16(0))
 		case 12: // Tlopen -> Rlopen
-			rep = rawFrame(13, tag, cat([]byte{0}, le32(0), le64(2), le32(0)))
+			rep = rawFrame(13, tag, cat([]byte{0}, le32(0), le64(2), le32(s.iounit)))
 		case 118: // Twrite fid[4] offset[8] count[4] data
 			off := binary.LittleEndian.Uint64(body[4:])
 			cnt := binary.LittleEndian.Uint32(body[12:])
@@ -218,7 +219,7 @@ func fileByte(i int) byte { return byte((i*7 + 3) % 251) }
 
 func runKneg(r *rng, n int) {
 	emit("klfs => lfs=%d", p9.VerifLargestFixedSize())
-	for i := 0; i < n; i++ {
+	for i := 0; i < n && !tooManyHangs(); i++ {
 		req := []uint32{154, 155, 665, 666, 1024, 4096, 8192, 65536, 1 << 20, 8 << 20}[r.intn(10)]
 		reqv := uint32(r.intn(8))
 		var rm uint32
@@ -253,12 +254,13 @@ func runKneg(r *rng, n int) {
 		flen := r.intn(20000)
 		a, b := connPair()
 		fs := &fakeServer{c: b, rm: rm, rv: rv, done: make(chan struct{})}
+		fs.iounit = []uint32{0, 0, 512, 4096, 128 << 10, req * 2, 1 << 30}[r.intn(7)]
 		fs.file = make([]byte, flen)
 		for j := range fs.file {
 			fs.file[j] = fileByte(j)
 		}
 		go fs.run()
-		lhs := fmt.Sprintf("kneg req=%d reqv=%d rm=%d rv=%s flen=%d", req, reqv, rm, hx(rv), flen)
+		lhs := fmt.Sprintf("kneg req=%d reqv=%d rm=%d rv=%s flen=%d iounit=%d", req, reqv, rm, hx(rv), flen, fs.iounit)
 		c, err := p9.NewClient(a, p9.WithMessageSize(req), p9.VerifWithRequestedVersion(reqv))
 		if err != nil {
 			a.Close()
@@ -291,6 +293,8 @@ func runKneg(r *rng, n int) {
 					return r.intn(limit)
 				}
 			}
+			// opened first: the I/O unit of Rlopen is a recommendation, no licence to exceed the payload size
+			root.Open(p9.ReadWrite)
 			// ReadAt first (file untouched), then WriteAt
 			rlen, roff = pick(), r.intn(flen+10)
 			if rlen > 300000 {
@@ -298,7 +302,13 @@ func runKneg(r *rng, n int) {
 			}
 			p := make([]byte, rlen)
 			fs.frames = nil
-			nr, rerr := root.ReadAt(p, int64(roff))
+			var nr int
+			var rerr error
+			if !finishes(func() { nr, rerr = root.ReadAt(p, int64(roff)) }) {
+				a.Close()
+				emit("%s wlen=0 woff=0 rlen=%d roff=%d => readat-hung", lhs, rlen, roff)
+				continue
+			}
 			ok := "ok"
 			for j := 0; j < nr; j++ {
 				if roff+j >= flen || p[j] != fileByte(roff+j) {
@@ -312,7 +322,13 @@ func runKneg(r *rng, n int) {
 			}
 			w := r.bytesN(wlen)
 			fs.frames = nil
-			nw, werr := root.WriteAt(w, int64(woff))
+			var nw int
+			var werr error
+			if !finishes(func() { nw, werr = root.WriteAt(w, int64(woff)) }) {
+				a.Close()
+				emit("%s wlen=%d woff=%d rlen=%d roff=%d => writeat-hung", lhs, wlen, woff, rlen, roff)
+				continue
+			}
 			var wsizes []string
 			for _, f := range fs.frames {
 				if strings.HasPrefix(f, "118:") {
@@ -331,11 +347,47 @@ func runKneg(r *rng, n int) {
 				over = fs.maxSize
 			}
 			rhs = append(rhs, fmt.Sprintf("oversize=%d", over))
+			// the version-gated requests follow the version of the *reply*: first request type of each call
+			stuck := false
+			first := func(call func()) string {
+				if stuck {
+					return "skipped"
+				}
+				fs.frames = nil
+				if !finishes(call) {
+					stuck = true
+					a.Close()
+					return "hung"
+				}
+				if len(fs.frames) == 0 {
+					return "-"
+				}
+				return strings.SplitN(fs.frames[0], ":", 2)[0]
+			}
+			rhs = append(rhs, "mkdir="+first(func() { root.Mkdir("m", 0755, 0, 0) }),
+				"create="+first(func() { root.Create("c", p9.ReadWrite, 0644, 0, 0) }),
+				"symlink="+first(func() { root.Symlink("t", "s", 0, 0) }),
+				"mknod="+first(func() { root.Mknod("n", p9.ModeRegular|0644, 0, 0, 0, 0) }),
+				"wga="+first(func() { root.WalkGetAttr([]string{"x"}) }))
 		} else {
 			rhs = append(rhs, "attach-failed")
 		}
 		c.Close()
 		<-fs.done
 		emit("%s wlen=%d woff=%d rlen=%d roff=%d => %s", lhs, wlen, woff, rlen, roff, strings.Join(rhs, " "))
+	}
+}
+
+// finishes runs f and reports whether it came back within 20 s (a client call that never returns
+// is an observation, not a reason for the harness to hang).
+func finishes(f func()) bool {
+	done := make(chan struct{})
+	go func() { f(); close(done) }()
+	select {
+	case <-done:
+		return true
+	case <-time.After(20 * time.Second):
+		noteHang()
+		return false
 	}
 }
